@@ -17,7 +17,7 @@ TConvert ==
   /\ l <= Len(Rec) /\ Ev.ev = "Convert" /\ l' = l + 1
   /\ (Ev.outcome = "model") =>
         /\ Chk("ModelIsClosed", LinksClosed(Ev.graph))
-        /\ Chk("IdsUniquePerCollection", AllUnique(Ev.graph))
+        /\ Chk("IdsUniquePerCollection", AllUnique(Ev.graph) /\ ("shades" \in DOMAIN Ev.graph => UniqueIds(Ev.graph.shades)))
         /\ Chk("NoNilLinks", Ev.nil_links = 0 /\ NoNilLinks(Ev.graph))
         /\ Chk("CheckerReportsNothing", Ev.nwarnings = 0 /\ CheckSpec(Ev.graph) = <<>>)
   \* a project whose own (live) name reference is broken must be rejected with an error
